@@ -21,20 +21,24 @@ Rec == ndJsonDeserialize(IOEnv.TRACE)
 
 VARIABLES i,
           S,        \* Seq of supplied values
-          open, pend, unl, minIdx, idx, oblig, alive,
+          open, unl, minIdx, idx, oblig, alive,
+          \* What the log does not show: how far the runtime has got with r's requests on the supply lane (see
+          \* Trace_ValueView): link / unlink are processed in order, a sync links r whenever its answer arrives.
+          cq, sq, rlk, fq, stopping,
           Q,        \* [remote -> Seq of command tags sent and not yet handled]
           sentQ,    \* [target -> Seq of [v, ow]]
           pos       \* [target -> index of the last command delivered]
-vars == <<i, S, open, pend, unl, minIdx, idx, oblig, alive, Q, sentQ, pos>>
+hid == <<cq, sq, rlk, fq>>
+vars == <<i, S, open, unl, minIdx, idx, oblig, alive, cq, sq, rlk, fq, stopping, Q, sentQ, pos>>
 
 Has(e, f) == f \in DOMAIN e
 Max(a, b) == IF a > b THEN a ELSE b
 R(x) == [r \in Remotes |-> x]
 
-Fresh == /\ S = <<>> /\ open = R(FALSE) /\ pend = R(FALSE) /\ unl = R(FALSE) /\ minIdx = R(0) /\ idx = R(0)
+Fresh == /\ S = <<>> /\ open = R(FALSE) /\ cq = R(<<>>) /\ sq = R(<<>>) /\ rlk = R(FALSE) /\ fq = R(<<>>) /\ stopping = FALSE /\ unl = R(FALSE) /\ minIdx = R(0) /\ idx = R(0)
          /\ oblig = R({}) /\ alive = R(TRUE) /\ Q = R(<<>>)
          /\ sentQ = [t \in Targets |-> <<>>] /\ pos = [t \in Targets |-> 0]
-FreshP == /\ S' = <<>> /\ open' = R(FALSE) /\ pend' = R(FALSE) /\ unl' = R(FALSE) /\ minIdx' = R(0) /\ idx' = R(0)
+FreshP == /\ S' = <<>> /\ open' = R(FALSE) /\ cq' = R(<<>>) /\ sq' = R(<<>>) /\ rlk' = R(FALSE) /\ fq' = R(<<>>) /\ stopping' = FALSE /\ unl' = R(FALSE) /\ minIdx' = R(0) /\ idx' = R(0)
           /\ oblig' = R({}) /\ alive' = R(TRUE) /\ Q' = R(<<>>)
           /\ sentQ' = [t \in Targets |-> <<>>] /\ pos' = [t \in Targets |-> 0]
 
@@ -42,26 +46,49 @@ TraceInit == i = 1 /\ Fresh /\ TLCSet(1, 1)
 
 MinOf(Set) == CHOOSE x \in Set : \A y \in Set : x <= y
 
+\* steps of the runtime that the log does not show
+HCoord(r) ==
+    /\ cq[r] # <<>>
+    /\ LET h == Head(cq[r]) IN
+       /\ cq' = [cq EXCEPT ![r] = Tail(@)]
+       /\ IF h.op = "link"
+            THEN /\ rlk' = [rlk EXCEPT ![r] = TRUE]
+                 /\ fq' = [fq EXCEPT ![r] = Append(@, [k |-> "linked", pos |-> h.pos])]
+            ELSE /\ rlk' = [rlk EXCEPT ![r] = FALSE]
+                 /\ fq' = IF rlk[r] THEN [fq EXCEPT ![r] = Append(@, [k |-> "unlinked", pos |-> 0])] ELSE fq
+    /\ UNCHANGED sq
+HSync(r) ==
+    /\ sq[r] # <<>> /\ ~rlk[r]
+    /\ rlk' = [rlk EXCEPT ![r] = TRUE]
+    /\ fq' = [fq EXCEPT ![r] = Append(@, [k |-> "linked", pos |-> Head(sq[r]).pos])]
+    /\ UNCHANGED <<cq, sq>>
+
 Step(e) ==
     \/ /\ e.e \in {"reset", "restart"} /\ FreshP
     \/ /\ e.e = "push"
        /\ S' = Append(S, e.v)
        \* every remote that had received linked before the push (and has not asked to unlink) must get it
        /\ oblig' = [r \in Remotes |-> IF open[r] /\ ~unl[r] THEN oblig[r] \cup {Len(S) + 1} ELSE oblig[r]]
-       /\ UNCHANGED <<open, pend, unl, minIdx, idx, alive, Q, sentQ, pos>>
-    \/ /\ e.e = "req" /\ e.op \in {"link", "sync"}
-       /\ LET r == e.r  fresh == ~open[r] /\ ~pend[r] IN
-          /\ pend' = [pend EXCEPT ![r] = TRUE]
-          /\ minIdx' = IF fresh THEN [minIdx EXCEPT ![r] = Max(@, Len(S))] ELSE minIdx
-       /\ UNCHANGED <<S, open, unl, idx, oblig, alive, Q, sentQ, pos>>
+       /\ UNCHANGED <<open, unl, minIdx, idx, alive, hid, stopping, Q, sentQ, pos>>
+    \/ /\ e.e = "req" /\ e.op = "link"
+       /\ cq' = [cq EXCEPT ![e.r] = Append(@, [op |-> "link", pos |-> Len(S)])]
+       /\ UNCHANGED <<S, open, unl, minIdx, idx, oblig, alive, sq, rlk, fq, stopping, Q, sentQ, pos>>
+    \/ /\ e.e = "req" /\ e.op = "sync"
+       /\ sq' = [sq EXCEPT ![e.r] = Append(@, [pos |-> Len(S)])]
+       /\ UNCHANGED <<S, open, unl, minIdx, idx, oblig, alive, cq, rlk, fq, stopping, Q, sentQ, pos>>
     \/ /\ e.e = "req" /\ e.op = "unlink"
+       /\ cq' = [cq EXCEPT ![e.r] = Append(@, [op |-> "unlink", pos |-> 0])]
        /\ unl' = [unl EXCEPT ![e.r] = TRUE]
        /\ oblig' = [oblig EXCEPT ![e.r] = {}]
-       /\ UNCHANGED <<S, open, pend, minIdx, idx, alive, Q, sentQ, pos>>
+       /\ UNCHANGED <<S, open, minIdx, idx, alive, sq, rlk, fq, stopping, Q, sentQ, pos>>
     \/ /\ e.e = "frame" /\ e.kind = "linked"
+       /\ fq[e.r] # <<>> /\ Head(fq[e.r]).k = "linked"
+       /\ fq' = [fq EXCEPT ![e.r] = Tail(@)]
        /\ open' = [open EXCEPT ![e.r] = TRUE]
        /\ unl' = IF open[e.r] THEN unl ELSE [unl EXCEPT ![e.r] = FALSE]
-       /\ UNCHANGED <<S, pend, minIdx, idx, oblig, alive, Q, sentQ, pos>>
+       \* a new episode: only items pushed after the request that opened it was sent
+       /\ minIdx' = IF open[e.r] THEN minIdx ELSE [minIdx EXCEPT ![e.r] = Max(@, Head(fq[e.r]).pos)]
+       /\ UNCHANGED <<S, idx, oblig, alive, cq, sq, rlk, stopping, Q, sentQ, pos>>
     \/ /\ e.e = "frame" /\ e.kind = "event"
        /\ LET r == e.r IN
           IF ~open[r] THEN UNCHANGED idx
@@ -73,25 +100,35 @@ Step(e) ==
                   /\ LET j == MinOf(C) IN
                      /\ \A x \in (idx[r] + 1)..(j - 1) : x \notin oblig[r]     \* nothing owed was skipped
                      /\ idx' = [idx EXCEPT ![r] = j]
-       /\ UNCHANGED <<S, open, pend, unl, minIdx, oblig, alive, Q, sentQ, pos>>
+       /\ UNCHANGED <<S, open, unl, minIdx, oblig, alive, hid, stopping, Q, sentQ, pos>>
     \/ /\ e.e = "frame" /\ e.kind = "synced"
-       /\ UNCHANGED <<S, open, pend, unl, minIdx, idx, oblig, alive, Q, sentQ, pos>>
+       /\ sq' = [sq EXCEPT ![e.r] = IF @ # <<>> THEN Tail(@) ELSE @]     \* the oldest outstanding sync is answered
+       /\ UNCHANGED <<S, open, unl, minIdx, idx, oblig, alive, cq, rlk, fq, stopping, Q, sentQ, pos>>
     \/ /\ e.e = "frame" /\ e.kind = "unlinked"
+       /\ IF fq[e.r] # <<>>
+            THEN /\ Head(fq[e.r]).k = "unlinked"              \* the answer to an unlink request
+                 /\ fq' = [fq EXCEPT ![e.r] = Tail(@)]
+                 /\ UNCHANGED <<cq, sq, rlk>>
+            ELSE /\ stopping                                  \* the agent stops: every link is closed
+                 /\ cq' = [cq EXCEPT ![e.r] = <<>>] /\ sq' = [sq EXCEPT ![e.r] = <<>>]
+                 /\ rlk' = [rlk EXCEPT ![e.r] = FALSE] /\ UNCHANGED fq
        /\ open' = [open EXCEPT ![e.r] = FALSE]
-       /\ pend' = [pend EXCEPT ![e.r] = FALSE]
        /\ oblig' = [oblig EXCEPT ![e.r] = {}]
-       /\ UNCHANGED <<S, unl, minIdx, idx, alive, Q, sentQ, pos>>
+       /\ UNCHANGED <<S, unl, minIdx, idx, alive, stopping, Q, sentQ, pos>>
+    \/ /\ e.e = "stopping"
+       /\ stopping' = TRUE
+       /\ UNCHANGED <<S, open, unl, minIdx, idx, oblig, alive, hid, Q, sentQ, pos>>
     \/ /\ e.e = "csent"
        /\ Q' = [Q EXCEPT ![e.r] = Append(@, e.tag)]
-       /\ UNCHANGED <<S, open, pend, unl, minIdx, idx, oblig, alive, sentQ, pos>>
+       /\ UNCHANGED <<S, open, unl, minIdx, idx, oblig, alive, hid, stopping, sentQ, pos>>
     \/ /\ e.e = "chand"
        \* the handler runs once per command, in the order each remote sent them
        /\ \E r \in Remotes : /\ Q[r] # <<>> /\ Head(Q[r]) = e.tag
                              /\ Q' = [Q EXCEPT ![r] = Tail(@)]
-       /\ UNCHANGED <<S, open, pend, unl, minIdx, idx, oblig, alive, sentQ, pos>>
+       /\ UNCHANGED <<S, open, unl, minIdx, idx, oblig, alive, hid, stopping, sentQ, pos>>
     \/ /\ e.e = "asent"
        /\ sentQ' = [sentQ EXCEPT ![e.t] = Append(@, [v |-> e.v, ow |-> e.ow])]
-       /\ UNCHANGED <<S, open, pend, unl, minIdx, idx, oblig, alive, Q, pos>>
+       /\ UNCHANGED <<S, open, unl, minIdx, idx, oblig, alive, hid, stopping, Q, pos>>
     \/ /\ e.e = "aout"
        /\ LET t == e.t
               C == {j \in (pos[t] + 1)..Len(sentQ[t]) : sentQ[t][j].v = e.v} IN
@@ -99,10 +136,10 @@ Step(e) ==
           /\ LET j == MinOf(C) IN
              /\ \A x \in (pos[t] + 1)..(j - 1) : sentQ[t][x].ow    \* only overwritable commands are superseded
              /\ pos' = [pos EXCEPT ![t] = j]
-       /\ UNCHANGED <<S, open, pend, unl, minIdx, idx, oblig, alive, Q, sentQ>>
+       /\ UNCHANGED <<S, open, unl, minIdx, idx, oblig, alive, hid, stopping, Q, sentQ>>
     \/ /\ e.e = "gone"
        /\ alive' = [alive EXCEPT ![e.r] = FALSE]
-       /\ UNCHANGED <<S, open, pend, unl, minIdx, idx, oblig, Q, sentQ, pos>>
+       /\ UNCHANGED <<S, open, unl, minIdx, idx, oblig, hid, stopping, Q, sentQ, pos>>
     \/ /\ e.e = "quiescent"
        /\ \A x \in 1..Len(e.drained) :
              LET r == e.drained[x] IN
@@ -111,12 +148,23 @@ Step(e) ==
        /\ \A t \in Targets :                                                   \* only superseded commands are missing
              /\ \A x \in (pos[t] + 1)..Len(sentQ[t]) : sentQ[t][x].ow
              /\ (sentQ[t] # <<>> /\ e.targets_drained) => pos[t] = Len(sentQ[t])
-       /\ UNCHANGED <<S, open, pend, unl, minIdx, idx, oblig, alive, Q, sentQ, pos>>
+       \* nothing is in flight: every request of a drained remote has been dealt with
+       /\ LET D == {e.drained[x] : x \in 1..Len(e.drained)} IN
+          /\ cq' = [r \in Remotes |-> IF r \in D THEN <<>> ELSE cq[r]]
+          /\ sq' = [r \in Remotes |-> IF r \in D THEN <<>> ELSE sq[r]]
+          /\ fq' = [r \in Remotes |-> IF r \in D THEN <<>> ELSE fq[r]]
+          /\ rlk' = [r \in Remotes |-> IF r \in D THEN open[r] ELSE rlk[r]]
+       /\ UNCHANGED <<S, open, unl, minIdx, idx, oblig, alive, stopping, Q, sentQ, pos>>
 
-TraceNext == /\ i <= Len(Rec)
-             /\ Step(Rec[i])
-             /\ i' = i + 1
-             /\ TLCSet(1, Max(TLCGet(1), i + 1))
+TraceNext ==
+    /\ i <= Len(Rec)
+    /\ LET e == Rec[i] IN
+       \/ /\ e.e = "frame" /\ e.kind \in {"linked", "unlinked"} /\ fq[e.r] = <<>>
+          /\ (HCoord(e.r) \/ HSync(e.r))
+          /\ UNCHANGED <<i, S, open, unl, minIdx, idx, oblig, alive, stopping, Q, sentQ, pos>>
+       \/ /\ Step(e)
+          /\ i' = i + 1
+          /\ TLCSet(1, Max(TLCGet(1), i + 1))
 
 TraceSpec == TraceInit /\ [][TraceNext]_vars
 
